@@ -1,5 +1,7 @@
 """C13 — strict recovery never silently returns damaged state (engine M)."""
 from vlib.mo import *
+from vlib.mirflow import exit_event
+import re
 from vlib.runner import run_mir_obligations
 
 ENGINES = "M"
@@ -128,12 +130,53 @@ def manifest_keys(F):
                    "into None and strict recovery proceeds without the snapshot", queries=r.queries, seconds=r.seconds, sample=smp)]
 
 
+def seq_continuity(F):
+    """Strict recovery can notice that entries are MISSING (a closed segment cut at a frame boundary leaves only intact frames)
+    only if it checks that sequence numbers continue, or if closed segments record how many frames they hold.  Decided here: in
+    the replay loop some decision on entry.seq_no leads to an error exit before the entry is applied or the next one fetched."""
+    from vlib.mirflow import Graph, reach_query, origin as _o
+    from vlib.mo import field_index as _fi
+    fc = FnCheck(F, R)
+    if fc.fn is None:
+        return [fc.missing()]
+    fn = fc.fn
+    si = _fi("persistence.rs", "WalEntry", "seq_no")
+    if si is None:
+        return [Result("inconclusive", "WalEntry.seq_no not found")]
+    SEQ = r"\(\(\{call <IntoIter<WalEntry> as Iterator>::next\} as Some\)\.0: persistence::WalEntry\)\}\.%d: u64\)" % si
+    NEXT = call(r"= <IntoIter<WalEntry> as Iterator>::next\(", name="next entry")
+    ERR = exit_event("err")
+    APPLY = Ev(r"= discriminant\(", kind="stmt", also=lambda f, b, t: b.kind == "switch" and re.search(r": persistence::WalOp\)\)$", _o(f, b.switch_local or "")) is not None, name="match entry.op")
+    g = Graph(fn, [NEXT, ERR, APPLY])
+    avoid = set(g.ev_nodes[NEXT.name]) | set(g.ev_nodes[APPLY.name])
+    found = []
+    q = 0
+    for idx in sorted(fn.blocks):
+        b = fn.blocks[idx]
+        if b.cleanup or b.kind != "switch" or not re.search(SEQ, _o(fn, b.switch_local or "")):
+            continue
+        for lab, t in b.succs:
+            if t not in g.block_in:
+                continue
+            res, _p = reach_query(len(g.nodes), g.edges, [g.block_in[t]], g.ev_nodes[ERR.name], avoid)
+            q += 1
+            if res == "sat":
+                found.append("bb%d arm %s (%s)" % (idx, lab, _o(fn, b.switch_local)[:80]))
+    smp = {"fn": fc.name, "kind": "REACHABLE", "B": "error exit decided by entry.seq_no", "seq_decisions_leading_to_error": found[:4]}
+    if found:
+        return [Result("holds", "a decision on entry.seq_no can reject the log: " + found[0], queries=q, sample=smp)]
+    return [Result("violated", "no decision on entry.seq_no leads to an error in the replay loop (and closed segments carry no frame count): entries missing from a non-final segment that was cut at a frame "
+                   "boundary are not noticed and strict start-up succeeds without them", queries=q, sample=smp)]
+
+
 def _cutoff(F):
     from props.C02 import replay_skip
     return replay_skip(F)
 
 
 MOS += [
+    MO("O13.7/seq_continuity", "recover (strict): missing entries are noticed — some decision on entry.seq_no in the replay loop leads to an error exit (sequence continuity), or closed segments record their frame count",
+       seq_continuity, functions=[("hnsw_backend.rs", "recover_with_hnsw_params_and_mode")], role="clean-truncation-of-nonfinal-segment-undetected"),
     MO("O13.6/manifest_keys", "Manifest parse: an unknown (damaged) key is an error, or the MANIFEST is checksummed — so that an optional field cannot silently become None", manifest_keys,
        functions=[("persistence.rs", "Manifest (serde Deserialize)"), ("persistence.rs", "load")], role="manifest-unknown-key-ignored"),
     MO("O13.5/replay_cutoff", "recover: the replay cut-off is the loaded snapshot's own last_wal_seq / timestamp (nothing read from the unchecksummed MANIFEST): every entry newer than the snapshot that was actually loaded "
